@@ -3,6 +3,17 @@
 (* that holds, for every kind, its boundary representatives.  One vector    *)
 (* per cell of the tables of DESIGN.md section 3; the laws protect the      *)
 (* transcription (JqValue) against mistakes.                                *)
+(* Beyond the single cells:                                                 *)
+(*   nest   composed expressions (JqValue.EvalTree): unary over binary and  *)
+(*          unary over unary on the whole universe, binary over binary (both *)
+(*          shapes) on a reduced one; laws: where a negated comparison is    *)
+(*          the opposite comparison and where it is not (unset), De Morgan,  *)
+(*          error propagation and short circuit at depth, associativity      *)
+(*   site   one source-level operator expression evaluated once per operand *)
+(*   usite  of the universe in ONE run, the changing operand reaching it as  *)
+(*          a for-in variable (elements, values, keys, characters, index),   *)
+(*          a parameter, a reassigned variable, an indexed member: every     *)
+(*          evaluation yields its own cell's result                          *)
 EXTENDS JqValue
 
 S(str) == VStr(Chars(str))
@@ -32,6 +43,85 @@ IsNames == <<"number", "string", "bool", "array", "object", "regex", "function",
              "undefined", "unset", "none", "any", "String", "ARRAY", "Number", "Bool", "Object", "Regex", "Unknown", "num", "obj", "arr", "fn">>
 IsOperands == U \o <<VNative>>
 
+\* ---- composed expressions (family "nest"): the operands of the two-operator trees
+CONSTANTS Fams,             \* the vector families to enumerate
+          NestN,            \* size of the reduced universe of the binary-in-binary trees
+          SiteShift, SiteStride   \* the order in which a repeated site sees its operands (any shift; a stride coprime to every length)
+UCAll == <<I(2), S("5"), S("abc"), VNull, VUnset, VBool(TRUE), Zero, VArr(1), Num(-7, 2, 0)>>
+UC == SubSeq(UCAll, 1, NestN)
+\* shapes: ub = unary(binary(l, r)), uu = unary(unary(l)), bl = binary(binary(l, r), c), br = binary(l, binary(r, c))
+NestHeads == ({"ub"} \X UnOps \X BinOps) \cup ({"uu"} \X UnOps \X UnOps) \cup ({"bl", "br"} \X BinOps \X BinOps)
+NestTree(h, i, j) ==
+  CASE h[1] = "ub" -> UnNode(h[2], BinNode(h[3], Leaf(U[i], 1), Leaf(U[j], 2)))
+    [] h[1] = "uu" -> UnNode(h[2], UnNode(h[3], Leaf(U[i], 1)))
+    [] h[1] = "bl" -> BinNode(h[2], BinNode(h[3], Leaf(UC[i], 1), Leaf(UC[j[1]], 2)), Leaf(UC[j[2]], 3))
+    [] h[1] = "br" -> BinNode(h[2], Leaf(UC[i], 1), BinNode(h[3], Leaf(UC[j[1]], 2), Leaf(UC[j[2]], 3)))
+
+\* ---- repeated sites (family "site"): ONE source-level operator expression evaluated once per
+\* element of a sequence of operands, in one run.  Each evaluation gives the result of its own
+\* cell (an operator keeps nothing from one evaluation to the next, wherever the operand comes
+\* from); the run ends at the first runtime error.  The variants say how the changing operand
+\* reaches the site (the harness renders them):
+\*   elem    for (x in [..]) over a literal array      docelem  the same over an array of the document
+\*   val     for (k, x in {..}): the second variable    key      for (x in {..}): the keys (strings, sorted bytewise)
+\*   char    for (x in "..."): the characters           idx      for (v, x in [..]): the index 0, 1, 2, 3
+\*   param   a function parameter                       var      a variable assigned between evaluations
+\*   member  a[i] inside a counting loop
+SiteVariants == <<"elem", "docelem", "val", "key", "char", "idx", "param", "var", "member">>
+SiteKinds(variant) ==
+  CASE variant \in {"elem", "val", "member", "var"} -> {"num", "str", "bool", "null", "arr", "obj", "regex"}
+    [] variant = "docelem" -> {"num", "str", "bool", "null", "arr", "obj"}
+    [] variant \in {"key", "char"} -> {"str"}
+    [] variant = "idx" -> {"num"}
+    [] variant = "param" -> Kinds \ {"fn"}                  \* (a function is not passed as an argument here)
+OneChar(s) == s # <<>> /\ Len(CharsOf(s)) = 1
+SiteElig(variant) ==
+  IF variant = "idx" THEN <<1, 3, 5, 6>>                            \* the indexes 0 1 2 3
+  ELSE SelectSeq([i \in 1..NU |-> i], LAMBDA i : U[i].k \in SiteKinds(variant) /\ (variant = "char" => OneChar(U[i].s)))
+\* the t-th element of a rotation with a stride: a permutation when the stride is coprime to the length
+Permuted(seq) == [t \in 1..Len(seq) |-> seq[((SiteShift + t * SiteStride) % Len(seq)) + 1]]
+RECURSIVE SortedByStr(_)
+SortedByStr(ix) == IF ix = {} THEN <<>> ELSE LET m == CHOOSE i \in ix : \A j \in ix : StrCmp(U[i].s, U[j].s) <= 0 IN <<m>> \o SortedByStr(ix \ {m})
+SeqRange(q) == {q[i] : i \in 1..Len(q)}
+SiteOrder(variant, seq) ==
+  CASE variant = "idx" -> seq
+    [] variant = "key" -> SortedByStr(SeqRange(seq))
+    [] OTHER -> Permuted(seq)
+\* (constant tuples, so that TLC computes them once)
+SiteEligs == <<SiteElig("elem"), SiteElig("docelem"), SiteElig("val"), SiteElig("key"), SiteElig("char"), SiteElig("idx"),
+               SiteElig("param"), SiteElig("var"), SiteElig("member")>>
+SiteOrders == <<SiteOrder("elem", SiteEligs[1]), SiteOrder("docelem", SiteEligs[2]), SiteOrder("val", SiteEligs[3]), SiteOrder("key", SiteEligs[4]),
+                SiteOrder("char", SiteEligs[5]), SiteOrder("idx", SiteEligs[6]), SiteOrder("param", SiteEligs[7]), SiteOrder("var", SiteEligs[8]),
+                SiteOrder("member", SiteEligs[9])>>
+VariantNo(variant) == CHOOSE k \in 1..Len(SiteVariants) : SiteVariants[k] = variant
+\* side 1: the changing operand on the left, 2: on the right, 3: on both sides (the same variable twice)
+SiteCell(o, side, fixed, i) == CASE side = 1 -> BinOp(o, U[i], fixed) [] side = 2 -> BinOp(o, fixed, U[i]) [] side = 3 -> BinOp(o, U[i], U[i])
+RECURSIVE SiteCellsFrom(_, _, _, _)
+SiteCellsFrom(o, side, fixed, i) == IF i > NU THEN <<>> ELSE <<SiteCell(o, side, fixed, i)>> \o SiteCellsFrom(o, side, fixed, i + 1)
+RECURSIVE USiteCellsFrom(_, _)
+USiteCellsFrom(o, i) == IF i > NU THEN <<>> ELSE <<UnOp(o, U[i])>> \o USiteCellsFrom(o, i + 1)
+SiteCells(o, side, fixed) == SiteCellsFrom(o, side, fixed, 1)                     \* (an explicit tuple: every cell is computed once)
+CellFixed(res) == ~res.ok \/ res.v.k # "unfixed"
+\* the elements whose cell is a value, in run order, then (when there is one) ONE element whose cell is a runtime error.
+\* Keys and indexes come in an order that is not ours to choose: there the run is the given order up to
+\* the first runtime error (and nothing when a cell is not fixed by the statement).
+RECURSIVE ThroughFirstErr(_, _)
+ThroughFirstErr(cells, el) ==
+  IF el = <<>> THEN <<>>
+  ELSE IF ~cells[Head(el)].ok THEN <<Head(el)>>
+  ELSE <<Head(el)>> \o ThroughFirstErr(cells, Tail(el))
+FirstOf(q) == IF q = <<>> THEN <<>> ELSE <<q[1]>>
+SiteSeqOf(cells, variant, el) ==
+  IF variant \in {"key", "idx"} THEN
+     (IF \E t \in 1..Len(el) : ~CellFixed(cells[el[t]]) THEN <<>> ELSE ThroughFirstErr(cells, el))
+  ELSE SelectSeq(el, LAMBDA i : cells[i].ok /\ CellFixed(cells[i])) \o FirstOf(SelectSeq(el, LAMBDA i : ~cells[i].ok))
+SiteSeq(cells, variant) == SiteSeqOf(cells, variant, SiteOrders[VariantNo(variant)])
+RECURSIVE SiteRun(_, _)
+SiteRun(cells, seq) ==
+  IF seq = <<>> THEN [out |-> <<>>, err |-> FALSE]
+  ELSE IF ~cells[Head(seq)].ok THEN [out |-> <<>>, err |-> TRUE]
+  ELSE LET rest == SiteRun(cells, Tail(seq)) IN [out |-> <<cells[Head(seq)].v>> \o rest.out, err |-> rest.err]
+
 \* ---- enumeration: Init picks family, operator and left operand, Next the right one
 VARIABLES fam, op, li, ri, done
 vars == <<fam, op, li, ri, done>>
@@ -42,6 +132,10 @@ Init ==
      \/ fam = "un" /\ op \in UnOps /\ li \in 1..NU
      \/ fam = "inc" /\ op \in {"++", "--"} /\ li \in 1..NU
      \/ fam = "is" /\ op = "is" /\ li \in 1..Len(IsOperands)
+     \/ fam = "nest" /\ op \in NestHeads /\ li \in 1..(IF op[1] \in {"ub", "uu"} THEN NU ELSE NestN)
+     \/ fam = "site" /\ op \in BinOps /\ li \in 1..NU
+     \/ fam = "usite" /\ op \in UnOps /\ li = 1
+  /\ fam \in Fams
 Next ==
   /\ ~done /\ done' = TRUE /\ UNCHANGED <<fam, op, li>>
   /\ CASE fam = "bin" -> ri' \in 1..NU
@@ -49,6 +143,9 @@ Next ==
        [] fam = "un" -> ri' = 0
        [] fam = "inc" -> ri' \in {0, 1}                          \* 1 = prefix
        [] fam = "is" -> ri' \in 1..Len(IsNames)
+       [] fam = "nest" -> ri' \in (CASE op[1] = "ub" -> 1..NU [] op[1] = "uu" -> {0} [] OTHER -> (1..NestN) \X (1..NestN))
+       [] fam = "site" -> ri' \in (IF li = 1 THEN {1, 2, 3} ELSE {1, 2})                                \* the side
+       [] fam = "usite" -> ri' = 0
 
 \* ---- deviations (open findings): the cells a known defect explains
 \* F6 zero-dividend: `0 / 5` and `0 % 5` are refused as divide by zero
@@ -79,6 +176,24 @@ Vec == done =>
          Emit([fam |-> fam, op |-> op, li |-> li, l |-> U[li], prefix |-> (ri = 1), res |-> Ok(x.value), stored |-> x.stored])
     [] fam = "is" ->
          Emit([fam |-> fam, op |-> op, li |-> li, l |-> IsOperands[li], name |-> IsNames[ri], res |-> IsOp(IsOperands[li], IsNames[ri])])
+    [] fam = "nest" ->
+         LET t == NestTree(op, li, ri)  x == EvalTree(t) IN
+         Emit([fam |-> fam, shape |-> op[1], tree |-> t, res |-> IF x.ok THEN Ok(x.v) ELSE Err, marks |-> x.m])
+    [] fam = "site" ->
+         \* cells: the result of every operand of the universe at this site; per variant the run: the operands
+         \* (indexes into the universe) in the order of evaluation, the run's output being cells[seq[1]], cells[seq[2]], ...
+         \* (nout values, then a runtime error when err)
+         LET cells == SiteCells(op, ri, U[li]) IN
+         Emit([fam |-> fam, op |-> op, side |-> ri, li |-> li, l |-> U[li], cells |-> cells,
+               runs |-> [k \in 1..Len(SiteVariants) |->
+                          LET seq == SiteSeq(cells, SiteVariants[k])  run == SiteRun(cells, seq)
+                          IN [variant |-> SiteVariants[k], seq |-> seq, nout |-> Len(run.out), err |-> run.err]]])
+    [] fam = "usite" ->
+         LET cells == USiteCellsFrom(op, 1) IN
+         Emit([fam |-> fam, op |-> op, side |-> 0, cells |-> cells,
+               runs |-> [k \in 1..Len(SiteVariants) |->
+                          LET seq == SiteOrders[k]
+                          IN [variant |-> SiteVariants[k], seq |-> seq, nout |-> Len(seq), err |-> FALSE]]])
 
 \* ======================================================================
 \* Laws (spec-level; checked by TLC in every enumerated state)
@@ -202,7 +317,75 @@ ValueLaws(v) ==
 \* the operands stay inside what the 32-bit arithmetic of the model supports
 UniverseOK == \A i \in 1..NW : W[i].k = "num" => Abs(W[i].n) < 64 /\ W[i].d < 64
 
+\* ---- composed expressions
+Opposite(o) == CASE o = "==" -> "!=" [] o = "!=" -> "==" [] o = "<" -> ">=" [] o = ">=" -> "<" [] o = ">" -> "<=" [] o = "<=" -> ">"
+                 [] o = "~" -> "!~" [] o = "!~" -> "~"
+Fixed(x) == x.ok /\ x.v.k # "unfixed"
+Res(x) == IF x.ok THEN Ok(x.v) ELSE Err
+\* unary(binary(l, r))
+NestUB(u, b, l, r, x) ==                                       \* x the result of the tree, inner the cell below the unary operator
+  LET inner == BinOp(b, l, r) IN
+  /\ x.ok = inner.ok                                                              \* a unary operator neither raises nor hides an error
+  /\ x.m = (IF EvalsRight(b, l) THEN <<1, 2>> ELSE <<1>>)
+  /\ Fixed(x) => x.v.k = (IF u = "!" THEN "bool" ELSE "num")
+  \* a negated comparison is the opposite comparison for operands that are set ...
+  /\ u = "!" /\ b \in CmpOps /\ inner.ok /\ "unset" \notin {l.k, r.k} => Res(x) = BinOp(Opposite(b), l, r)
+  \* ... and NOT when one is unset: == is false and so is != ; < and > are true
+  /\ u = "!" /\ b \in {"==", "<", ">"} /\ "unset" \in {l.k, r.k} => Res(x) = Ok(VBool(b = "=="))
+  /\ u = "!" /\ b \in MatchOps /\ inner.ok => Res(x) = BinOp(Opposite(b), l, r)
+  /\ u = "!" /\ b = "&&" => Res(x) = Logic("||", UnOp("!", l).v, UnOp("!", r).v)
+  /\ u = "!" /\ b = "||" => Res(x) = Logic("&&", UnOp("!", l).v, UnOp("!", r).v)
+  /\ u = "-" /\ b = "-" /\ Fixed(x) /\ Fixed(Arith("-", r, l)) /\ Arith("-", r, l).v.k = "num" => NumEq(x.v, Arith("-", r, l).v)      \* -(l - r) = r - l
+  /\ u = "+" /\ Fixed(x) /\ inner.v.k = "num" => x.v = inner.v
+  /\ u = "+" /\ b \in (CmpOps \cup LogicOps \cup MatchOps) /\ Fixed(x) => x.v = (IF B(inner) THEN I(1) ELSE Zero)
+NestUU(u1, u2, v, x) ==
+  /\ x.ok /\ x.m = <<1>>
+  /\ u1 = "!" /\ u2 = "!" => x.v = VBool(Truthy(v))
+  /\ u1 = "!" /\ u2 \in {"-", "+"} => x.v = VBool(IsZero(NumOf(v)))
+  /\ u1 = u2 /\ u1 \in {"-", "+"} => x.v = NumOf(v)
+  /\ {u1, u2} = {"-", "+"} => x.v = Neg(NumOf(v))
+  /\ u1 = "+" /\ u2 = "!" => x.v = (IF Truthy(v) THEN Zero ELSE I(1))
+  /\ u1 = "-" /\ u2 = "!" => x.v = (IF Truthy(v) THEN NegZero ELSE I(-1))
+\* binary(binary(l, r), c) and binary(l, binary(r, c)) over the same three operands
+NestBB(o2, o1, l, r, c, xl, xr) ==
+  LET innerL == BinOp(o1, l, r)  innerR == BinOp(o1, r, c) IN
+  \* errors: the left operand comes first; a right operand that is skipped cannot fail
+  /\ ~innerL.ok => ~xl.ok /\ xl.m = (IF EvalsRight(o1, l) THEN <<1, 2>> ELSE <<1>>)
+  /\ ~innerR.ok => xr.ok = ~EvalsRight(o2, l)
+  /\ xr.m = <<1>> \o (IF EvalsRight(o2, l) THEN (IF EvalsRight(o1, r) THEN <<2, 3>> ELSE <<2>>) ELSE <<>>)
+  /\ innerL.ok /\ innerL.v.k # "unfixed" /\ OperandOK(o2, [t |-> "bin"], innerL.v, c) =>
+        xl.m = (IF EvalsRight(o1, l) THEN <<1, 2>> ELSE <<1>>) \o (IF EvalsRight(o2, innerL.v) THEN <<3>> ELSE <<>>)
+  \* exact arithmetic is associative; so is concatenation, and so are && and ||
+  /\ o1 = o2 /\ o1 \in {"+", "*"} /\ "str" \notin {l.k, r.k, c.k} /\ Fixed(xl) /\ Fixed(xr) /\ xl.v.k = "num" /\ xr.v.k = "num" => NumEq(xl.v, xr.v)
+  /\ o1 = o2 /\ o1 = "+" /\ {l.k, r.k, c.k} = {"str"} => xl.v = xr.v /\ xl.v = VStr(l.s \o r.s \o c.s)
+  /\ o1 = o2 /\ o1 \in LogicOps => Res(xl) = Res(xr)
+  /\ o1 = "&&" /\ o2 = "||" => Res(xl) = Ok(VBool((Truthy(l) /\ Truthy(r)) \/ Truthy(c)))
+  /\ o1 = "||" /\ o2 = "&&" => Res(xr) = Ok(VBool(Truthy(l) /\ (Truthy(r) \/ Truthy(c))))
+NestLaws ==
+  CASE op[1] = "ub" -> NestUB(op[2], op[3], U[li], U[ri], EvalTree(NestTree(op, li, ri)))
+    [] op[1] = "uu" -> NestUU(op[2], op[3], U[li], EvalTree(NestTree(op, li, ri)))
+    [] op[1] = "bl" -> NestBB(op[2], op[3], UC[li], UC[ri[1]], UC[ri[2]], EvalTree(NestTree(op, li, ri)), EvalTree(NestTree(<<"br", op[2], op[3]>>, li, ri)))
+    [] OTHER -> TRUE
+
+\* ---- repeated sites: the run order is a rearrangement of the eligible operands whose cell is fixed, values first
+SiteLawsOf(o, side, fixed, variant, cells) ==
+  LET el == SiteEligs[VariantNo(variant)]  seq == SiteSeq(cells, variant)  run == SiteRun(cells, seq) IN
+  /\ SeqRange(Permuted(el)) = SeqRange(el) /\ Cardinality(SeqRange(el)) = Len(el)          \* the stride is coprime to the length
+  /\ variant = "key" => \A t \in 1..(Len(seq) - 1) : StrCmp(U[seq[t]].s, U[seq[t + 1]].s) < 0
+  /\ Cardinality(SeqRange(seq)) = Len(seq) /\ SeqRange(seq) \subseteq SeqRange(el)
+  /\ variant \notin {"key", "idx"} => \A i \in SeqRange(el) : cells[i].ok /\ CellFixed(cells[i]) => i \in SeqRange(seq)
+  /\ variant \in {"key", "idx"} /\ seq # <<>> => seq = SubSeq(SiteOrders[VariantNo(variant)], 1, Len(seq)) /\ (run.err \/ Len(seq) = Len(el))
+  /\ Len(run.out) = Len(seq) - (IF run.err THEN 1 ELSE 0)
+  /\ \A t \in 1..Len(run.out) : Ok(run.out[t]) = cells[seq[t]]
+  /\ variant = "char" => \A t \in 1..Len(run.out) : Ok(run.out[t]) = SiteCell(o, side, fixed, seq[t])     \* (the tuple of cells against the definition, on the short runs)
+  /\ run.err => ~cells[seq[Len(seq)]].ok
+  /\ Len(el) >= 4
+SiteLawsAll(o, side, fixed, cells) == \A k \in 1..Len(SiteVariants) : SiteLawsOf(o, side, fixed, SiteVariants[k], cells)
+SiteLaws(o, side, fixed) == SiteLawsAll(o, side, fixed, SiteCells(o, side, fixed))
+
 Laws == done =>
+  /\ fam = "nest" => NestLaws
+  /\ fam = "site" => SiteLaws(op, ri, U[li])
   /\ fam \in {"bin", "match"} => CellLaw(op, W[li], W[ri])
   /\ fam = "bin" /\ op = "==" => PairLaws(U[li], U[ri])
   /\ fam = "match" /\ op = "~" => PairLaws(W[li], W[ri])
